@@ -46,6 +46,34 @@ std::string path_of(geo::Path const& p)
 bool start_point(GeoSource& src, Choices& c, CaseLog& log, V3& p, V3& d)
 {
     GeoFixture& f = *src.fix;
+    size_t start_depth = 1;
+    // generated geometries know where their embedded universes are: start
+    // half of the cases inside one (mostly the deepest), since a uniformly
+    // drawn point almost never lands in a level >= 2 universe
+    if (!src.anchors.empty() && c.boolean(0.5))
+    {
+        int maxlev = 0;
+        for (auto const& a : src.anchors)
+            maxlev = std::max(maxlev, a.level);
+        bool deepest = c.boolean(0.7);
+        std::vector<GeoSource::Anchor const*> cand;
+        for (auto const& a : src.anchors)
+            if (!deepest || a.level == maxlev)
+                cand.push_back(&a);
+        auto const& a = *cand[c.index(cand.size())];
+        double w[3];
+        c.unit_vector(w);
+        double r = a.radius * c.real_in(0, 0.9);
+        for (int k = 0; k < 3; ++k)
+            p[k] = a.pos[k] + r * w[k];
+        geo::Path pp = geo::locate(f.model, p, geo::delta_at(f.model, p) * 4);
+        if (!pp.ambiguous && !pp.outside() && !pp.nowhere && !pp.overlap
+            && !pp.bad_logic)
+        {
+            start_depth = pp.lv.size();
+            goto found;
+        }
+    }
     // up to 6 attempts to find an unambiguous interior start
     for (int a = 0; a < 6; ++a)
     {
@@ -54,10 +82,16 @@ bool start_point(GeoSource& src, Choices& c, CaseLog& log, V3& p, V3& d)
         geo::Path pp = geo::locate(f.model, p, geo::delta_at(f.model, p) * 4);
         if (!pp.ambiguous && !pp.outside() && !pp.nowhere && !pp.overlap
             && !pp.bad_logic)
+        {
+            start_depth = pp.lv.size();
             goto found;
+        }
     }
     return false;
 found:
+    log.label(start_depth >= 3   ? "start-level-2+"
+              : start_depth == 2 ? "start-level-1"
+                                 : "start-level-0");
     double dd[3];
     int dk = int(c.int_in(0, 7));
     if (dk < 6)
@@ -512,7 +546,7 @@ Verdict mode_program(GeoSource& src, Choices& c, CaseLog& log)
                 return Verdict::violation;
             continue;
         }
-        int op = int(c.pick({3, 2, 2, 2, 1, 1}));
+        int op = int(c.pick({3, 2, 2, 2, 2, 1}));
         if (op == 0 || !has_next)
         {
             // find_next_step, unlimited or limited
@@ -667,6 +701,8 @@ Verdict mode_program(GeoSource& src, Choices& c, CaseLog& log)
             LD s = room * c.real_in(0.05, 0.9);
             V3 tgt = geo::along(x, ww, s);
             prog << " move_pos";
+            if (tv.level().get() >= 2)
+                log.label("move-pos-at-level-2+");
             tv.move_internal(r3(tgt));
             x = {{(LD)(double)tgt[0], (LD)(double)tgt[1], (LD)(double)tgt[2]}};
             has_next = false;
